@@ -44,6 +44,7 @@ package jsonexpr
 //@   modifies nothing
 //@   loop 0 modifies r.pos, sel[*]
 //@   loop 0 invariant r != nil && fresh(r) && 0 <= r.pos && r.pos <= len(r.input) && fresh(sel)
+//@   loop 0 decreases len(r.input) - r.pos
 //@ func KeySel
 //@   modifies nothing
 //@ func IndexSel
@@ -53,17 +54,21 @@ package jsonexpr
 //@   requires 0 <= r.pos
 //@   modifies nothing
 //@   ensures ret1 >= 0 && (ret1 > 0 ==> r.pos + ret1 <= len(r.input))
+//@   ensures[end-of-input-iff-nothing-left] (ret0 == -1) == (r.pos >= len(r.input)) && (r.pos < len(r.input) ==> ret1 >= 1)
 //@ func (*reader).Peek
 //@   requires 0 <= r.pos
 //@   modifies nothing
+//@   ensures[end-of-input-iff-nothing-left] (ret0 == -1) == (r.pos >= len(r.input))
 //@ func (*reader).Read
 //@   requires 0 <= r.pos && r.pos <= len(r.input)
 //@   modifies r.pos
 //@   ensures r.pos >= old(r.pos) && r.pos <= len(r.input)
+//@   ensures[consumes-a-rune-unless-at-the-end] old(r.pos) < len(r.input) ==> r.pos > old(r.pos)
 //@ func (*reader).scanField
 //@   requires 0 <= r.pos && r.pos <= len(r.input)
 //@   modifies r.pos
 //@   ensures r.pos >= old(r.pos) && r.pos <= len(r.input)
+//@   ensures[a-field-consumes-input] ret1 == nil ==> r.pos > old(r.pos)
 //@   loop 0 modifies nothing
 //@   loop 0 invariant len(input) <= len(r.input) - r.pos
 //@ func (*reader).scanInteger
@@ -78,6 +83,7 @@ package jsonexpr
 //@   ensures r.pos >= old(r.pos) && r.pos <= len(r.input)
 //@   loop 0 modifies nothing
 //@   loop 0 invariant 1 <= i && len(input) <= len(r.input) - r.pos
+//@   loop 0 decreases len(input) - i
 
 //@ scope eval.go
 
